@@ -522,15 +522,28 @@ def run(ctx):
         ctx.ob("R-WHO", "%s:fields-private" % short(adt), all(fl["vis"] != "pub" for v in rec["variants"] for fl in v["fields"]),
                "the fields of %s are private" % short(adt))
     # conversions from unchecked vectors/slices go through the normalising collector
-    for fn in ("<%sOwnedChain<T> as std::convert::From<std::vec::Vec<T>>>::from" % CH,
-               "<%sOwnedChain<T> as std::convert::From<&'a [T]>>::from" % CH):
+    FROM_ITER = "<%sOwnedChain<T> as std::iter::FromIterator<T>>::from_iter" % CH
+    conv = ["<%sOwnedChain<T> as std::convert::From<std::vec::Vec<T>>>::from" % CH,
+            "<%sOwnedChain<T> as std::convert::From<&'a [T]>>::from" % CH]
+    for fn in conv:
         b = f.body(fn)
         if b is None:
             ctx.missing("R-FLOW", short(fn), fn)
             continue
         ctx.saw_fn(fn)
         names = {(c.trait, c.name) for c in b.calls() if c.is_static and not b.is_cleanup(c.bb)}
-        ok = ("std::iter::Iterator", "collect") in names or any(n == "from_iter" for _, n in names)
+        # the returned chain is the result of the collector itself, of `collect()` into the chain type, or of the other
+        # (normalising) conversion
+        ok = False
+        for c in b.calls():
+            if not c.is_static or b.is_cleanup(c.bb) or c.dest is None or c.dest["p"]:
+                continue
+            if not re.search(r"chain::OwnedChain<", b.local_ty(c.dest["l"])):
+                continue
+            if c.res == FROM_ITER or c.name == "from_iter" or (c.trait == "std::iter::Iterator" and c.name == "collect") or \
+                    (c.res in conv and c.res != fn) or (c.name in ("into", "from") and (c.trait or "").startswith("std::convert::")
+                                                        and c.res != fn):
+                ok = True
         ctx.ob("R-FLOW", "%s:normalises" % short(fn), ok, "%s builds the chain with the normalising FromIterator" % short(fn),
                where=b.loc, detail=sorted(str(x) for x in names))
     for owner, blk in ((IP + "IpBlocks::all", "IpBlock::all()"), (AS + "AsBlocks::all", "AsBlock::all()")):
@@ -649,8 +662,8 @@ def check_stored_blocks(ctx, f):
             if not cs:
                 return False
             for c in cs:
-                if l - 1 >= len(c.args):
-                    return False
+                if l - 1 >= len(c.args) or root_fn(f, c.body.name) not in family:
+                    return False                    # a caller whose own stores nobody looks at
                 cv = Vals.of(f, c.body)
                 if not cv.from_collection(cv.sym.operand(c.args[l - 1]), trusted):
                     return False
@@ -679,14 +692,30 @@ def check_stored_blocks(ctx, f):
             if vals.from_collection(a, trusted):
                 continue
             es = vals.elems(a)
-            if not es:
+            if not es and not (a[0] == "agg" and (a[1] in (_OPTION, "array", "tuple"))):
                 bad.append("%s: %s" % (what, K.alpha(render(a), vals.body)[:200]))
             for e in es:
                 canonical(vals, e, bad, what + " item")
 
+    # the functions whose vectors end up in the unsafe constructor: its callers and the private functions they use
+    family = set()
+    work = [root_fn(f, c.body.name) for c in calls_to(f, lambda c: c.res == CH + "OwnedChain::<T>::from_vec_unchecked")]
+    while work:
+        fn = work.pop()
+        fb = f.body(fn)
+        if fn in family or fb is None or not fb.file.endswith("resources/chain.rs"):
+            continue
+        family.add(fn)
+        for n2 in [fn] + list(f.children(fn)):
+            b2 = f.body(n2)
+            for c in (b2.calls() if b2 is not None else ()):
+                cb = f.body(c.res) if c.is_static and c.res else None
+                if cb is not None and not b2.is_cleanup(c.bb) and cb.rec.get("vis") != "pub" and not cb.rec.get("impl_trait") \
+                        and cb.file.endswith("resources/chain.rs"):
+                    work.append(root_fn(f, cb.name))
     per_root = {}
     for n, b in sorted(f.bodies.items()):
-        if not b.file.endswith("resources/chain.rs") or is_derived(b) or "::test" in n:
+        if root_fn(f, n) not in family or is_derived(b) or "::test" in n:
             continue
         BT = block_types(b)
         if not BT:
@@ -1365,7 +1394,7 @@ def check_interval_discipline(ctx, f):
                "%s replaces a stored block by (its min, another block's max) only where that max is larger than the stored one "
                "(or the other block starts right after it) — a merge never shrinks a block" % short(root_fn(f, b.name)),
                where=c.where(), detail={"new": [a0, a1], "needs_one_of": need[:6], "guards": guards})
-    ctx.floor("R-GRD", "block-extending merges in chain.rs", n_ext, 5)
+    ctx.floor("R-GRD", "block-extending merges in chain.rs", n_ext, 3)
 
     # ---- C03.h inclusive bounds: an upper and a lower bound are compared strictly for disjointness ----------
     n_mixed = 0
